@@ -955,3 +955,116 @@ Example clone_unconditional_satisfiable :
                    n = 2 /\ abs w' n = Ok p /\ length (p_pairs p) = 6%nat.
 Proof. exact clone_unconditional_example. Qed.
 Print Assumptions clone_unconditional_satisfiable.
+
+(* ---------------------------------------------------------------------------------------- *)
+(* WAVE 10: NEIGHBOR JOINING UNDER THE NON-STRICT FOUR-POINT CONDITION (polytomous generating trees).
+   Closes the partial above (realising_tree_refines_partial / nj_polytomy_example): what was computed
+   on one witness is now proved for every matrix, any number of taxa, any iteration order, any
+   Q-minimal pair.  four_point_ns / mfour_point_ns (Proofs/C14W10Q.v): in every quartet the two largest
+   of the three sums are equal (fp3w), nothing strict.  A Q-minimal pair need not be a cherry of the
+   generating tree but is a cherry of the stored pseudo-metric: whenever two attachment points on the
+   path i..j differ, the quartets involved ARE strictly resolved, and the only new case (a position
+   class whose largest Gromov product is 0) gets its strict term from a node at another position. *)
+From DV Require Import Proofs.C14W10Q Proofs.C14W10R Proofs.C14W10B Proofs.C14W10Ex.
+
+(* (a) the Q-criterion: in a pool with the non-strict four-point condition EVERY pair minimising Q is a
+   metric cherry, and joining it (whichever Q-minimal pair nj_step picks) leaves a pool with the
+   non-strict four-point condition (symmetry, completeness and row sums are in jwf, kept by
+   nj_step_sound) *)
+Theorem q_criterion_nonstrict : qcrit_cherry four_point_ns /\ qcrit_closed four_point_ns.
+Proof. exact (conj fp_cherry_ns fp_closed_ns). Qed.
+Print Assumptions q_criterion_nonstrict.
+
+(* the strict condition implies the non-strict one, quartet by quartet *)
+Theorem strict_four_point_is_nonstrict : forall a b c, fp3 a b c -> fp3w a b c.
+Proof. exact fp3_fp3w. Qed.
+Print Assumptions strict_four_point_is_nonstrict.
+
+(* (a'), (b) with the triangle inequality and non-negative entries added (tm_pool: the stored distances
+   are a tree pseudo-metric): the class is closed under the reduction for any Q-minimal pair, and the
+   two lengths nj_step gives to the joined nodes are >= 0 (TN: every edge length inside the pool's
+   trees is >= 0; pools of two nodes included) *)
+Theorem nj_step_keeps_tree_metric_and_nonneg_lengths :
+  qcrit_cherry tm_pool /\ qcrit_closed tm_pool /\
+  forall pool next pool', jwf pool -> tm_pool pool -> TN pool -> (2 <= length pool)%nat -> ~ In next (jids pool) ->
+    nj_step pool (Z.of_nat (length pool)) next = Ok pool' -> TN pool'.
+Proof. exact (conj tm_cherry (conj tm_closed tn_step)). Qed.
+Print Assumptions nj_step_keeps_tree_metric_and_nonneg_lengths.
+
+(* (c) nj_tree's output realises EVERY matrix with the non-strict four-point condition *)
+Theorem nj_realises_nonstrict : forall M order,
+  NoDup order -> order <> [] ->
+  mcomplete M order -> msymmetric M order -> mfour_point_ns M order ->
+  exists T, nj_tree M order = Ok T /\
+    forall a b, In a order -> In b order -> a <> b -> exists q, qdist T a b = Some q /\ (q == mval M a b)%Q.
+Proof. exact nj_realises_nonstrict_l. Qed.
+Print Assumptions nj_realises_nonstrict.
+
+(* ... and with the triangle inequality and non-negative entries: the output is a tree on exactly the
+   taxa iterated, without negative split, equal on every proper split to ANY tree realising the matrix
+   without negative split; and every single edge length of the output is >= 0 *)
+Theorem nj_unique_nonstrict : forall M order,
+  NoDup order -> order <> [] -> mcomplete M order -> msymmetric M order ->
+  mfour_point_ns M order -> mtriangle M order -> mnonneg M order ->
+  exists T, nj_tree M order = Ok T /\
+    (forall a b, In a order -> In b order -> a <> b -> exists q, qdist T a b = Some q /\ (q == mval M a b)%Q) /\
+    qleaves_ok T /\ NoDup (qtaxa T) /\ (forall a, qhas a T = true <-> In a order) /\
+    split_nonneg T /\
+    forall T', qleaves_ok T' -> NoDup (qtaxa T') -> (forall a, qhas a T' = true <-> In a order) -> split_nonneg T' ->
+      (forall a b, In a order -> In b order -> a <> b -> exists q, qdist T' a b = Some q /\ (q == mval M a b)%Q) ->
+      forall s, proper_split order s -> (split_len T s == split_len T' s)%Q.
+Proof. exact nj_unique_nonstrict_l. Qed.
+Print Assumptions nj_unique_nonstrict.
+
+Theorem nj_edge_lengths_nonneg_nonstrict : forall M order,
+  NoDup order -> order <> [] -> mcomplete M order -> msymmetric M order ->
+  mfour_point_ns M order -> mtriangle M order -> mnonneg M order ->
+  exists T, nj_tree M order = Ok T /\ forall m, In m (qnodes T) -> (0 <= qlen0 m)%Q.
+Proof. exact nj_lengths_nonneg_l. Qed.
+Print Assumptions nj_edge_lengths_nonneg_nonstrict.
+
+(* the matrix compiled from ANY rose tree with distinct leaf taxa and non-negative lengths (polytomies,
+   unifurcations, zero-length edges) satisfies the non-strict four-point condition *)
+Theorem tree_matrix_four_point_nonstrict : forall t p order,
+  good_leaves t -> t_kids t <> [] -> nonneg_lengths t -> compile_from_tree t = Ok p ->
+  (forall a, In a order -> In (Some a) (leaf_taxa t)) ->
+  mfour_point_ns (qtable p true) order.
+Proof. exact tree_matrix_four_point_ns. Qed.
+Print Assumptions tree_matrix_four_point_nonstrict.
+
+(* NJ ON THE MATRIX OF A POLYTOMOUS TREE RETURNS A REFINEMENT OF IT, for every such tree, every order:
+   the output is a tree on exactly the leaf taxa that realises the tree's distances, has no negative
+   split, carries on every split the length the split has in the generating tree; every positive-length
+   edge of the generating tree is an edge of the output, and every edge of the output that is not an
+   edge of the generating tree has (with the edges in series with it) length 0 *)
+Theorem nj_refines_polytomous_tree : forall t p order,
+  good_leaves t -> t_kids t <> [] -> nonneg_lengths t ->
+  compile_from_tree t = Ok p ->
+  NoDup order -> (forall a, In a order <-> In (Some a) (leaf_taxa t)) ->
+  exists T, nj_tree (qtable p true) order = Ok T /\
+    qleaves_ok T /\ NoDup (qtaxa T) /\ (forall a, qhas a T = true <-> In a order) /\
+    (forall a b, In a order -> In b order -> a <> b ->
+       exists q q', qdist T a b = Some q /\ qdist (tq t) a b = Some q' /\ (q == q')%Q) /\
+    split_nonneg T /\
+    (forall s, proper_split order s -> (split_len T s == split_len (tq t) s)%Q) /\
+    (forall m, In m (qnodes (tq t)) -> proper_split order (qcl m) -> (0 < split_len (tq t) (qcl m))%Q ->
+       exists m', In m' (qnodes T) /\ same_split order (qcl m) (qcl m') = true) /\
+    (forall m', In m' (qnodes T) -> proper_split order (qcl m') ->
+       (forall m, In m (qnodes (tq t)) -> same_split order (qcl m') (qcl m) = false) ->
+       (split_len T (qcl m') == 0)%Q).
+Proof. exact nj_refines_polytomous_tree_l. Qed.
+Print Assumptions nj_refines_polytomous_tree.
+
+(* the hypotheses of the three theorems above hold of the polytomous witness ((A:1,B:2,C:3):2,D:1,E:2),
+   whose matrix is NOT strictly resolved (so the strict theorems do not apply to it) *)
+Example nonstrict_hypotheses_satisfiable :
+  exists p, compile_from_tree ex_poly = Ok p /\
+    good_leaves ex_poly /\ t_kids ex_poly <> [] /\ nonneg_lengths ex_poly /\
+    NoDup [0; 1; 2; 3; 4] /\ [0; 1; 2; 3; 4] <> [] /\
+    (forall a, In a [0; 1; 2; 3; 4] <-> In (Some a) (leaf_taxa ex_poly)) /\
+    mcomplete (qtable p true) [0; 1; 2; 3; 4] /\ msymmetric (qtable p true) [0; 1; 2; 3; 4] /\
+    mfour_point_ns (qtable p true) [0; 1; 2; 3; 4] /\ mtriangle (qtable p true) [0; 1; 2; 3; 4] /\
+    mnonneg (qtable p true) [0; 1; 2; 3; 4] /\
+    ~ mfour_point_strict (qtable p true) [0; 1; 2; 3; 4].
+Proof. exact ex_poly_nonstrict_hyps. Qed.
+Print Assumptions nonstrict_hypotheses_satisfiable.
